@@ -200,8 +200,21 @@ def run(ctx):
                 if r.cls == '0' and not (os.path.exists(d + '/dst.bin') and filecmp.cmp(d + '/src.bin', d + '/dst.bin', shallow=False)):
                     ctx.violation(f'fiemap-refused-{i}.json', dict(plan=plan, exit=r.cls, stderr=r.stderr[-300:]),
                                   f'C04: extent mapping was refused ({plan}) and xcp exited 0, but the destination is not a copy of the sparse source')
+        # ---- an entry xcp cannot copy (a block device): leaving it out is a failure of that entry — exit 0 only if it is there
+        for driver in ('parfile', 'parblock'):
+            for shape in ('in-tree', 'sole-source'):
+                d = base + '/blk'; shutil.rmtree(d, ignore_errors=True); os.makedirs(d + '/S/sub')
+                open(d + '/S/a', 'w').write('a'); open(d + '/S/sub/z', 'w').write('z')
+                os.mknod(d + '/S/sub/disk0', stat.S_IFBLK | 0o600, os.makedev(7, 0))
+                argv = ['--driver', driver, '-r', 'S', 'D'] if shape == 'in-tree' else ['--driver', driver, 'S/sub/disk0', 'D']
+                r = scen.run_xcp(d, argv, timeout=30)
+                there = os.path.lexists(d + ('/D/sub/disk0' if shape == 'in-tree' else '/D')) and stat.S_ISBLK(os.lstat(d + ('/D/sub/disk0' if shape == 'in-tree' else '/D')).st_mode)
+                ctx.count(f'uncopyable_entry.{shape}.{r.cls}'); ctx.case(('block-device', driver, shape), True)
+                if r.cls == '0' and not there:
+                    ctx.violation(f'block-device-{driver}-{shape}.json', dict(argv=argv, exit=r.cls, stderr=r.stderr[-300:]),
+                                  f'C04: a block device among the sources ({shape}) was not copied and xcp exited 0')
     ctx.cov['sites_where_a_fault_fired'] = sites_hit
-    ctx.cov['rule'] = ('a tree with files (one multi-block), a nested directory, a link and a fifo, copied fresh / over an existing copy (thorough: into a directory, with --ownership), --fsync; '
+    ctx.cov['rule'] = ('a block device among the sources (in a tree, as sole source); a tree with files (one multi-block), a nested directory, a link and a fifo, copied fresh / over an existing copy (thorough: into a directory, with --ownership), --fsync; '
                        'for every call of the unfaulted trace that is a step: one run per errno (quick: 2 random of 7) with that call failing; plus the destination probe; thorough adds pairs. '
                        'distinct = distinct (driver, variant, plan); non-trivial = the fault fired')
     ctx.assumptions += ['an injected errno is what the call would return on a real failure', 'sites are recognised from (syscall, flags, path side)']
